@@ -7,6 +7,7 @@ import (
 	"github.com/absfs/absnfs"
 
 	"verif/sim/nfsclient"
+	"verif/sim/simfs"
 	"verif/sim/simrt"
 )
 
@@ -26,6 +27,7 @@ type C22Scn struct {
 	InitSize int      `json:"init_size"`
 	Transfer int      `json:"transfer,omitempty"`
 	Torn     bool     `json:"torn"`
+	SyncFail []int    `json:"sync_fail,omitempty"` // which File.Sync calls fail with EIO (1-based), injected in every crash-point run alike
 	OnlyK    int      `json:"only_k,omitempty"` // replay/minimised: run only this crash point (-1 = all)
 	Sched    SchedCfg `json:"sched"`
 }
@@ -45,6 +47,9 @@ func c22Run(t *testing.T, sc *C22Scn, k int, o *Outcome, trace bool) (ncalls int
 		w := NewWorld(o)
 		init := PayloadBytes(999, sc.InitSize)
 		w.FS.MustWriteFile("/f", init, 0o644)
+		for _, nth := range sc.SyncFail {
+			w.FS.AddFault(simfs.Fault{Op: "File.Sync", Nth: nth, Kind: "eio"})
+		}
 		opts := absnfs.ExportOptions{MaxWorkers: 1, TransferSize: sc.Transfer, AttrCacheTimeout: time.Millisecond}
 		if err := w.Start(opts); err != nil {
 			o.Inconclusive = "start: " + err.Error()
@@ -275,6 +280,12 @@ func genC22(r *simrt.Rand, tier string) any {
 			sc.Ops = append(sc.Ops, C22Op{Op: "CREATE"})
 		}
 	}
+	if r.Pct(30) {
+		// the backend's sync fails (EIO): nothing may then be acknowledged as stable that is not
+		for k, n := 0, 1+r.Int(2); k < n; k++ {
+			sc.SyncFail = append(sc.SyncFail, 1+r.Int(4))
+		}
+	}
 	return sc
 }
 
@@ -299,12 +310,17 @@ func shrinkC22(scAny any) []any {
 		c.Torn = false
 		out = append(out, &c)
 	}
+	for i := range sc.SyncFail {
+		c := *sc
+		c.SyncFail = append(append([]int(nil), sc.SyncFail[:i]...), sc.SyncFail[i+1:]...)
+		out = append(out, &c)
+	}
 	return out
 }
 
 func init() {
 	Register(&Prop{ID: "C22", Level: "fault_enumeration",
-		Rule: "one case = one sampled history of 1-6 requests (WRITE with each stable_how at offsets around page boundaries and lengths 1..5000 incl. above the transfer size, COMMIT, CREATE) on a file of 0/10/5000 initial bytes; the history is first run crash-free to count its B backend operations, then EVERY crash point k=0..B+1 (crash right after the k-th backend call returns; clean = all unsynced data lost, or torn = an arbitrary page subset and old-or-new size survive, drawn per history) is executed in its own simulated world: crash, restart of a new server instance on the durable state after a restart gap, read-back; oracle per byte: a byte acknowledged with committed=FILE_SYNC/DATA_SYNC or covered by an acknowledged COMMIT (and not superseded) holds that value; other touched bytes hold the old or one of the written values; the write verifier is constant within an instance and differs after the restart; non-trivial = the history makes at least one backend call; distinct by event digest over all crash points",
+		Rule: "one case = one sampled history of 1-6 requests (WRITE with each stable_how at offsets around page boundaries and lengths 1..5000 incl. above the transfer size, COMMIT, CREATE) on a file of 0/10/5000 initial bytes, in 30% of the histories with 1-2 of the first four backend Sync calls failing with EIO; the history is first run crash-free to count its B backend operations, then EVERY crash point k=0..B+1 (crash right after the k-th backend call returns; clean = all unsynced data lost, or torn = an arbitrary page subset and old-or-new size survive, drawn per history) is executed in its own simulated world: crash, restart of a new server instance on the durable state after a restart gap, read-back; oracle per byte: a byte acknowledged with committed=FILE_SYNC/DATA_SYNC or covered by an acknowledged COMMIT (and not superseded) holds that value; other touched bytes hold the old or one of the written values; the write verifier is constant within an instance and differs after the restart; non-trivial = the history makes at least one backend call; distinct by event digest over all crash points",
 		Gen:  genC22, New: func() any { return &C22Scn{} }, Run: runC22, Shrink: shrinkC22,
 		Real:        seqReal,
 		Stubbed:     []string{"backend with durability model (simfs: namespace ops durable on return, data/size volatile until Sync or O_SYNC; crash discards volatile state; old views fail after the crash)", "kernel TCP (simnet)", "clock", "scheduler"},
